@@ -104,6 +104,9 @@ def doWrite (d : DState) (op : Op) : IO DState := do
   let (res, sys', evs) := d.sys.call op
   printEvs evs
   out (showRes res)
+  match res with
+  | .panic m => out s!"#panic {m}"
+  | _ => pure ()
   let mut d := noteEvs { d with sys := sys' } evs
   if d.specOn then
     let legal := d.spec.legal op
